@@ -49,4 +49,10 @@ theorem port_tables_total :
 theorem port_constants : Gen.tcpPortType1 = 9957 ∧ Gen.tcpPortType2 = 10000 ∧
     Gen.udpPortType1 = 20002 ∧ Gen.udpPortType2 = 20003 := by decide
 
+/- concrete rows of the generated tables (the statements above are not about empty tables) -/
+example : accepts "SwitcherShutter" "RUNNER" = some true ∧ accepts "SwitcherShutter" "RUNNER_MINI" = some true ∧
+    accepts "SwitcherShutter" "MINI" = some false ∧ accepts "SwitcherThermostat" "BREEZE" = some true ∧
+    accepts "SwitcherPowerPlug" "POWER_PLUG" = some true ∧ accepts "SwitcherWaterHeater" "POWER_PLUG" = some false := by decide
+example : categoryOfClass "SwitcherWaterHeater" = some "WATER_HEATER" ∧ udpPort "SHUTTER" = some 20003 ∧ tcpPort "WATER_HEATER" = some 9957 := by decide
+
 end Props.C19
